@@ -169,10 +169,10 @@ func mkSharePlan(r *vf.Run) *sharePlan {
 	total := nb + nh + nc
 	p := &sharePlan{}
 	pr := r.RNG(999)
-	for k := 0; k < r.N(12, 60); k++ {
+	for k := 0; k < r.N(12, 40); k++ {
 		p.RaceDiff = append(p.RaceDiff, pr.Intn(total))
 	}
-	for s := 0; s < r.N(10, 60); s++ {
+	for s := 0; s < r.N(10, 40); s++ {
 		rng := r.RNG(5000, uint64(s))
 		k := rng.Range(2, 12)
 		if !r.Thorough() && k > 8 {
@@ -321,6 +321,9 @@ func judgeChild(r *vf.Run, stage string, ex vf.ChildExit) {
 	switch {
 	case ex.TimedOut:
 		r.Inconclusive("watchdog: stage " + stage + " exceeded its generous wall-clock limit")
+	case ex.ExitCode == 66 && ex.Partial && len(ex.Races) > 0:
+		// the race detector's exit status after reports (halt_on_error=0): the stage ran to
+		// its end; the reports were parsed and attributed by RunChild
 	case ex.ExitCode != 0 || !ex.Partial:
 		// the child died: crash signature = first panic/fatal line + innermost repo frame
 		sig := "unknown"
@@ -344,11 +347,7 @@ func judgeChild(r *vf.Run, stage string, ex vf.ChildExit) {
 
 func openBolt(path string) (*bolt.DB, error) {
 	// exactly the options of cmd/containerd-stargz-grpc/main.go
-	mm := 64 * 1024 * 1024
-	if v := os.Getenv("VERIF_C05_MMAP"); v != "" {
-		mm, _ = strconv.Atoi(v)
-	}
-	return bolt.Open(path, 0o600, &bolt.Options{NoFreelistSync: true, InitialMmapSize: mm, FreelistType: bolt.FreelistMapType})
+	return bolt.Open(path, 0o600, &bolt.Options{NoFreelistSync: true, InitialMmapSize: 64 * 1024 * 1024, FreelistType: bolt.FreelistMapType})
 }
 
 func section(b []byte) *io.SectionReader {
